@@ -26,7 +26,7 @@ def make_case(i, tier, avoid, salt='c04'):
     handled = [False, True, 'nested'][(i // (len(kinds) * len(positions))) % 3]
     if kind == 'throw_uncaught':
         handled = False   # a throw inside except__ is taken by the handler as a throw, not as an error: outside the statement
-    g = m.GenFault(rng, max_depth=3 if tier == 'quick' else 4, max_stmts=rng.choice([8, 15, 25]), avoid=avoid | {'throw-in-catch'})
+    g = m.GenFault(rng, max_depth=3 if tier == 'quick' else 4, max_stmts=rng.choice([8, 15, 25]), avoid=avoid)
     prog = g.program_with_fault(kind, position, handled)
     return {'avoid_try': 'fault-in-try' in avoid, 'prog': prog, 'gen': g, 'kind': kind, 'position': g.position, 'handled': handled, 'src': m.emit_program(prog)}
 
